@@ -729,8 +729,8 @@ func (p *Parser) ParseIfStatement() (*ast.IfStatement, error) {
 				if err != nil {
 					return nil, errors.WithStack(err)
 				}
-				// And restore the leading comments
-				another.Leading = leading
+				// And restore the leading comments, followed by the ones between "else" and "if"
+				another.Leading = append(leading, another.Leading...)
 
 				stmt.Another = append(stmt.Another, another)
 				continue
